@@ -63,6 +63,14 @@ CHECKS.update({
         'note': 'trusted: the linear-scan predicate ref_matches in checks/c08.py; which lines the loader accepted is taken from the loader',
         'technique': 'differential monitor: real lookup vs linear-scan reference over generated sets and insertion orders, under ASan/UBSan',
     },
+    'C09': {
+        'text': 'Generated active definitions (plain and chained, r/w) go through the real loader, prepareMaster (each part), find() in a fresh '
+                'map, prepareSlave, storeLastData and decodeLastData; header/NN/ID, identification, decode==inputs and chain split/re-join in '
+                'all tried arrival orders (active and passive path) are judged; oversize definitions must be rejected.',
+        'design_ref': 'DESIGN.md section 2, C09',
+        'note': 'trusted: canonical value catalog (checks/c10.py FULL) and the expected telegram layout computed in checks/c09.py',
+        'technique': 'end-to-end commutation monitor (prepare/find/store/decode) on generated definitions under virtual time, ASan/UBSan',
+    },
     'C13': {
         'text': 'Worlds of a referenced message, conditions of every shape and conditional messages are loaded and resolved by the real code; '
                 'update histories under a virtual clock (incl. several changes per second) are interleaved with isAvailable()/find() queries '
